@@ -87,7 +87,7 @@ pub trait Family: Sync + Send + 'static {
   fn components(&self) -> Value;
 }
 
-#[derive(Default)]
+#[derive(Default, Serialize, Deserialize)]
 pub struct LaneStats {
   pub lane: String,
   pub runs: u64,
@@ -137,18 +137,130 @@ pub struct LaneCfg {
   /// triage mode: never stop, no minimisation, count the distinct violation signatures of every
   /// property instead
   pub survey: bool,
+  /// this process scans only run indices i with i % n == r (multi-process scan)
+  pub part: Option<(u64, u64)>,
+  /// registry coordinates of the lane (for worker processes)
+  pub lane_index: usize,
+  pub tier_quick: bool,
 }
 
 fn scenario_size(v: &Value) -> usize {
   serde_json::to_string(v).map(|s| s.len()).unwrap_or(0)
 }
 
-/// Run one lane.
+pub type Hits<Sc> = Vec<(u64, Violation, Sc)>;
+
+/// Run one lane: scan (in this process, or split over worker processes for families that need a
+/// fresh OS thread per run - thread creation and stack mmap contend badly inside one process),
+/// then minimise / write replay files for what was found.
 pub fn run_lane<F: Family>(fam: Arc<F>, cfg: &LaneCfg, known: &super::known::Known) -> LaneResult {
   let t0 = Instant::now();
+  let multi = fam.needs_fresh_thread() && cfg.jobs > 1 && cfg.part.is_none() && std::env::var("VERIF_NO_FORK").is_err();
+  let (mut stats, hits, errors) = if multi { scan_multiprocess::<F>(&fam, cfg) } else { scan(fam.clone(), cfg, known) };
+  stats.lane = cfg.lane.clone();
+  stats.rule = fam.rule().into();
+  stats.components = fam.components();
+  let mut r = post(fam, cfg, known, stats, hits, errors);
+  r.stats.wall_s = t0.elapsed().as_secs_f64();
+  r
+}
+
+/// Worker-process entry: scan one part and print the result as one JSON document.
+pub fn scan_json<F: Family>(fam: Arc<F>, cfg: &LaneCfg, known: &super::known::Known) -> String {
+  let (stats, hits, errors) = scan(fam, cfg, known);
+  let hits: Vec<Value> = hits.into_iter().map(|(i, v, sc)| json!([i, v, serde_json::to_value(&sc).unwrap()])).collect();
+  serde_json::to_string(&json!({"stats": stats, "hits": hits, "errors": errors})).unwrap()
+}
+
+fn scan_multiprocess<F: Family>(_fam: &Arc<F>, cfg: &LaneCfg) -> (LaneStats, Hits<F::Sc>, Vec<String>) {
+  let exe = std::env::current_exe().expect("current_exe");
+  let n = cfg.jobs as u64;
+  let mut children = vec![];
+  for r in 0..n {
+    let child = std::process::Command::new(&exe)
+      .arg("worker")
+      .arg(&cfg.property)
+      .arg(cfg.lane_index.to_string())
+      .arg(cfg.batch_seed.to_string())
+      .arg(cfg.runs.to_string())
+      .arg(r.to_string())
+      .arg(n.to_string())
+      .arg(if cfg.tier_quick { "quick" } else { "thorough" })
+      .arg(if cfg.survey { "1" } else { "0" })
+      .stdout(std::process::Stdio::piped())
+      .stderr(std::process::Stdio::null())
+      .spawn();
+    children.push(child);
+  }
+  let mut stats = LaneStats::default();
+  let mut hits: Hits<F::Sc> = vec![];
+  let mut errors = vec![];
+  for (r, child) in children.into_iter().enumerate() {
+    let out = match child.and_then(|c| c.wait_with_output()) {
+      Ok(o) => o,
+      Err(e) => {
+        errors.push(format!("worker {r}: {e}"));
+        continue;
+      }
+    };
+    let text = String::from_utf8_lossy(&out.stdout);
+    let line = text.lines().rev().find(|l| l.starts_with('{'));
+    let v: Value = match line.map(serde_json::from_str) {
+      Some(Ok(v)) => v,
+      _ => {
+        errors.push(format!("worker {r}: no result (exit {:?}): {}", out.status.code(), text.chars().take(300).collect::<String>()));
+        continue;
+      }
+    };
+    match serde_json::from_value::<LaneStats>(v["stats"].clone()) {
+      Ok(s) => merge_stats(&mut stats, s),
+      Err(e) => errors.push(format!("worker {r}: bad stats: {e}")),
+    }
+    for h in v["hits"].as_array().cloned().unwrap_or_default() {
+      let idx = h[0].as_u64().unwrap_or(0);
+      let viol: Result<Violation, _> = serde_json::from_value(h[1].clone());
+      let sc: Result<F::Sc, _> = serde_json::from_value(h[2].clone());
+      match (viol, sc) {
+        (Ok(v), Ok(sc)) => hits.push((idx, v, sc)),
+        _ => errors.push(format!("worker {r}: bad hit")),
+      }
+    }
+    for e in v["errors"].as_array().cloned().unwrap_or_default() {
+      errors.push(format!("worker {r}: {}", e.as_str().unwrap_or("?")));
+    }
+  }
+  (stats, hits, errors)
+}
+
+fn merge_stats(g: &mut LaneStats, local: LaneStats) {
+  g.runs += local.runs;
+  g.steps += local.steps;
+  g.switches += local.switches;
+  g.vtime_ns += local.vtime_ns;
+  g.nontrivial += local.nontrivial;
+  g.traces.extend(local.traces);
+  g.states.extend(local.states);
+  for (k, v) in local.faults {
+    *g.faults.entry(k).or_insert(0) += v;
+  }
+  for (k, v) in local.probes {
+    *g.probes.entry(k).or_insert(0) += v;
+  }
+  for (k, v) in local.failures_by_kind {
+    *g.failures_by_kind.entry(k).or_insert(0) += v;
+  }
+  g.samples.extend(local.samples);
+  for (k, v) in local.survey {
+    let e = g.survey.entry(k).or_insert((0, u64::MAX));
+    e.0 += v.0;
+    e.1 = e.1.min(v.1);
+  }
+}
+
+fn scan<F: Family>(fam: Arc<F>, cfg: &LaneCfg, known: &super::known::Known) -> (LaneStats, Hits<F::Sc>, Vec<String>) {
   let next = Arc::new(AtomicU64::new(0));
   let stop = Arc::new(AtomicBool::new(false));
-  let stats = Arc::new(Mutex::new(LaneStats { lane: cfg.lane.clone(), rule: fam.rule().into(), components: fam.components(), ..Default::default() }));
+  let stats = Arc::new(Mutex::new(LaneStats::default()));
   // (run index, violation, scenario)
   let hits: Arc<Mutex<Vec<(u64, Violation, F::Sc)>>> = Arc::new(Mutex::new(vec![]));
   let first_hit = Arc::new(AtomicU64::new(u64::MAX));
@@ -166,6 +278,7 @@ pub fn run_lane<F: Family>(fam: Arc<F>, cfg: &LaneCfg, known: &super::known::Kno
     let runs = cfg.runs;
     let stop_on_first = cfg.stop_on_first;
     let survey = cfg.survey;
+    let part = cfg.part;
     handles.push(std::thread::spawn(move || {
       use std::cell::RefCell;
       use std::rc::Rc;
@@ -237,11 +350,17 @@ pub fn run_lane<F: Family>(fam: Arc<F>, cfg: &LaneCfg, known: &super::known::Kno
         let stop = stop.clone();
         let first_hit = first_hit.clone();
         move || -> Option<u64> {
-          let i = next.fetch_add(1, Ordering::SeqCst);
-          if i >= runs || (stop.load(Ordering::SeqCst) && i > first_hit.load(Ordering::SeqCst)) {
-            None
-          } else {
-            Some(i)
+          loop {
+            let i = next.fetch_add(1, Ordering::SeqCst);
+            if i >= runs || (stop.load(Ordering::SeqCst) && i > first_hit.load(Ordering::SeqCst)) {
+              return None;
+            }
+            if let Some((r, n)) = part {
+              if i % n != r {
+                continue;
+              }
+            }
+            return Some(i);
           }
         }
       };
@@ -286,28 +405,7 @@ pub fn run_lane<F: Family>(fam: Arc<F>, cfg: &LaneCfg, known: &super::known::Kno
       }
       let local = std::mem::take(&mut *local.borrow_mut());
       let mut g = stats.lock().unwrap();
-      g.runs += local.runs;
-      g.steps += local.steps;
-      g.switches += local.switches;
-      g.vtime_ns += local.vtime_ns;
-      g.nontrivial += local.nontrivial;
-      g.traces.extend(local.traces);
-      g.states.extend(local.states);
-      for (k, v) in local.faults {
-        *g.faults.entry(k).or_insert(0) += v;
-      }
-      for (k, v) in local.probes {
-        *g.probes.entry(k).or_insert(0) += v;
-      }
-      for (k, v) in local.failures_by_kind {
-        *g.failures_by_kind.entry(k).or_insert(0) += v;
-      }
-      g.samples.extend(local.samples);
-      for (k, v) in local.survey {
-        let e = g.survey.entry(k).or_insert((0, u64::MAX));
-        e.0 += v.0;
-        e.1 = e.1.min(v.1);
-      }
+      merge_stats(&mut g, local);
     }));
   }
   let mut harness_errors = vec![];
@@ -316,13 +414,23 @@ pub fn run_lane<F: Family>(fam: Arc<F>, cfg: &LaneCfg, known: &super::known::Kno
       harness_errors.push("worker thread panicked".to_string());
     }
   }
-  let mut stats = std::mem::take(&mut *stats.lock().unwrap());
+  let stats = std::mem::take(&mut *stats.lock().unwrap());
+  let hits = std::mem::take(&mut *hits.lock().unwrap());
+  (stats, hits, harness_errors)
+}
+
+fn post<F: Family>(fam: Arc<F>, cfg: &LaneCfg, known: &super::known::Known, mut stats: LaneStats, mut hits: Hits<F::Sc>, mut harness_errors: Vec<String>) -> LaneResult {
   stats.samples.sort_by_key(|s| s["run"].as_u64().unwrap_or(0));
   stats.samples.truncate(3);
 
   // Process hits in run-index order so the report does not depend on the worker count.
-  let mut hits = std::mem::take(&mut *hits.lock().unwrap());
   hits.sort_by_key(|h| h.0);
+  // multi-process scans stop per part: keep what the single in-process scan would have kept
+  if cfg.stop_on_first {
+    if let Some(first_unlisted) = hits.iter().find(|h| !known.matches(&h.1)).map(|h| h.0) {
+      hits.retain(|h| h.0 <= first_unlisted);
+    }
+  }
   let mut found = vec![];
   let mut seen_sigs: BTreeSet<String> = BTreeSet::new();
   for (idx, v, sc) in hits {
@@ -376,7 +484,6 @@ pub fn run_lane<F: Family>(fam: Arc<F>, cfg: &LaneCfg, known: &super::known::Kno
       minimised_to: scenario_size(&min_val),
     });
   }
-  stats.wall_s = t0.elapsed().as_secs_f64();
   LaneResult { stats, found, harness_errors }
 }
 
